@@ -149,21 +149,28 @@ emit_ev(const char *mcv, const void *p, int n)
 	ovni_ev_emit(&ev);
 }
 
+/* pid of the traced process; thread ids are pidbase + 1, + 2, + 3 (VERIF_PIDBASE: another process of the same loom) */
+static int pidbase = 100;
+
 static void
 do_op(struct worker *w, const char *op)
 {
 	static uint8_t buf[1 << 16];
 	w->seq++;
 	if (strcmp(op, "pinit") == 0) {
-		ovni_proc_init(1, "L", 100);
+		ovni_proc_init(1, "L", pidbase);
 	} else if (strcmp(op, "pfini") == 0) {
 		ovni_proc_fini();
 	} else if (strcmp(op, "init") == 0) {
 		ovni_thread_init(w->tid);
 		ovni_add_cpu(0, 0);
 		ovni_add_cpu(1, 1);
+		ovni_add_cpu(2, 2);
+		ovni_add_cpu(3, 3);
+		ovni_add_cpu(4, 4);
+		ovni_add_cpu(5, 5);
 	} else if (strcmp(op, "x") == 0) {
-		struct { int32_t cpu, tid; uint64_t tag; } __attribute__((packed)) x = { w->tid == 101 ? 0 : 1, w->tid, 0 };
+		struct { int32_t cpu, tid; uint64_t tag; } __attribute__((packed)) x = { w->tid % 100 - 1 + (pidbase == 100 ? 0 : 3), w->tid, 0 };
 		emit_ev("OHx", &x, 16);
 	} else if (strcmp(op, "e") == 0) {
 		emit_ev("OHe", NULL, 0);
@@ -227,16 +234,19 @@ worker_main(void *arg)
 int
 main(int argc, char *argv[])
 {
-	struct worker W[3];
+	struct worker W[4];
 	memset(W, 0, sizeof(W));
+	if (getenv("VERIF_PIDBASE"))
+		pidbase = atoi(getenv("VERIF_PIDBASE"));
 	/* thread A is the main thread itself, B and C are workers; C traces under A's tid (a thread id used again after
 	 * its first owner ended, as the kernel does) */
-	for (int i = 0; i < 3; i++) {
-		W[i].tid = i == 2 ? 101 : 101 + i;
+	/* D is a third concurrent thread with its own id */
+	for (int i = 0; i < 4; i++) {
+		W[i].tid = pidbase + (i == 2 ? 1 : (i == 3 ? 3 : 1 + i));
 		sem_init(&W[i].go, 0, 0);
 		sem_init(&W[i].done, 0, 0);
 	}
-	for (int i = 1; i < 3; i++) {
+	for (int i = 1; i < 4; i++) {
 		pthread_create(&W[i].th, NULL, worker_main, &W[i]);
 		sem_wait(&W[i].done); /* the worker is parked before the runtime phase starts */
 	}
@@ -246,17 +256,17 @@ main(int argc, char *argv[])
 		const char *op = argv[a];
 		if (strlen(op) < 3 || op[1] != ':')
 			continue;
-		if (op[0] != 'B' && op[0] != 'C') {
+		if (op[0] != 'B' && op[0] != 'C' && op[0] != 'D') {
 			do_op(&W[0], op + 2);
 			continue;
 		}
-		struct worker *w = &W[op[0] == 'B' ? 1 : 2];
+		struct worker *w = &W[op[0] == 'B' ? 1 : (op[0] == 'C' ? 2 : 3)];
 		w->op = op + 2;
 		sem_post(&w->go);
 		sem_wait(&w->done);
 	}
 	if (write(-1, "VERIF-END", 9) < 0) {}
-	for (int i = 1; i < 3; i++) {
+	for (int i = 1; i < 4; i++) {
 		W[i].quit = 1;
 		sem_post(&W[i].go);
 		pthread_join(W[i].th, NULL);
